@@ -55,13 +55,20 @@ fn parse_job(v: &Value, fault: &str) -> Vec<AnyJob> {
         lazy: v["lazy"].as_bool().unwrap_or(false),
         dpay: bytes(&v["dpay"]),
         lpay: bytes(&v["lpay"]),
+        // a buffering carrier only ever sits on a litep2p side
+        dbuf: v["dbuf"].as_bool().unwrap_or(false) && dimpl == "lite",
+        lbuf: v["lbuf"].as_bool().unwrap_or(false) && limpl == "lite",
         dimpl,
         limpl,
         ops: v["ops"]
             .as_array()
             .map(|a| {
                 a.iter()
-                    .map(|o| Op { side: if o["s"] == "d" { 0 } else { 1 }, read: o["op"] == "rd", n: o["n"].as_u64().unwrap() as usize })
+                    .map(|o| Op {
+                        side: if o["s"] == "d" { 0 } else { 1 },
+                        kind: if o["op"] == "rd" { duplex::RD } else if o["op"] == "wr" { duplex::WR } else { duplex::FL },
+                        n: o["n"].as_u64().unwrap() as usize,
+                    })
                     .collect()
             })
             .unwrap_or_default(),
@@ -75,8 +82,8 @@ fn parse_job(v: &Value, fault: &str) -> Vec<AnyJob> {
 fn job_json(j: &AnyJob) -> Value {
     match j {
         AnyJob::Stream(j) => json!({"variant": "stream", "dlist": j.dlist, "lset": j.lset, "lazy": j.lazy, "dpay": j.dpay, "lpay": j.lpay,
-            "dimpl": j.dimpl, "limpl": j.limpl, "seed": j.seed, "cap": j.cap, "p_pend": j.p_pend,
-            "ops": j.ops.iter().map(|o| json!({"s": if o.side == 0 { "d" } else { "l" }, "op": if o.read { "rd" } else { "wr" }, "n": o.n})).collect::<Vec<_>>()}),
+            "dimpl": j.dimpl, "limpl": j.limpl, "dbuf": j.dbuf, "lbuf": j.lbuf, "seed": j.seed, "cap": j.cap, "p_pend": j.p_pend,
+            "ops": j.ops.iter().map(|o| json!({"s": if o.side == 0 { "d" } else { "l" }, "op": (["rd", "wr", "fl"][o.kind as usize]), "n": o.n})).collect::<Vec<_>>()}),
         AnyJob::Msg(j) => json!({"variant": "msg", "dlist": j.dlist, "lset": j.lset, "seed": j.seed,
             "ops": j.ops.iter().map(|(a, g)| json!({"a": a, "g": g})).collect::<Vec<_>>()}),
     }
@@ -165,6 +172,9 @@ fn random_stream_job(rng: &mut StdRng, fault: &str) -> stream::Job {
         dlist,
         lset,
         lazy,
+        // carrier flush semantics: write-through, or buffers-until-flush on a litep2p side
+        dbuf: dimpl == "lite" && rng.gen_bool(0.5),
+        lbuf: limpl == "lite" && rng.gen_bool(0.5),
         dimpl: dimpl.into(),
         limpl: limpl.into(),
         ops: vec![],
@@ -208,7 +218,18 @@ fn exec(j: &AnyJob) -> Done {
             Done {
                 lines: o.lines,
                 drift: o.drift,
-                kind: format!("stream:{}-{}{}", job.dimpl, job.limpl, if job.lazy { ":lazy" } else { "" }),
+                kind: format!(
+                    "stream:{}-{}{}{}",
+                    job.dimpl,
+                    job.limpl,
+                    if job.lazy { ":lazy" } else { "" },
+                    match (job.dbuf, job.lbuf) {
+                        (false, false) => "",
+                        (true, false) => ":buf-d",
+                        (false, true) => ":buf-l",
+                        (true, true) => ":buf-dl",
+                    }
+                ),
                 scripted: !job.ops.is_empty(),
                 script_done: o.script_done,
                 script_len: o.script_len,
